@@ -424,6 +424,38 @@ func (s *seqRT) ruleSuspend() {
 		c.check(ok2, "SEQ.TAKE", construct, pos,
 			"calls the thunk once, runs its Seq with the captured (c, k), then takes c.step, clears it and returns it",
 			"expected f(..) ; result(c,k) ; s := c.step ; c.step = nil ; return s  ("+why+"); got: "+strings.Join(traceOf(e2), " ; ")+" => "+fmt.Sprint(o2[0].Ret), traceOf(e2)...)
+		// The same value run a second time (the body of a loop whose Delay was elided is one value run once per
+		// iteration): it suspends again and its resumption runs the thunk again — nothing is remembered from the
+		// first run.
+		if ok2 {
+			again := ""
+			o3 := in.Apply(o2[0].St, seq, []AV{symC(), symK()})
+			if len(o3) != 1 || o3[0].Panicked {
+				again = "the second run of the value is not a single path"
+			} else {
+				var step2 AV
+				for _, e := range observable(o3[0].St.Events[len(o2[0].St.Events):]) {
+					if e.Kind == "store" && e.Target == "c.step" && len(e.Args) == 1 {
+						step2 = e.Args[0]
+					}
+				}
+				obj2 := o3[0].St.Obj(step2)
+				if obj2 == nil || closureField(obj2) == "" {
+					again = "the second run of the value does not suspend by storing a step with a resumption"
+				} else {
+					o4 := in.Apply(o3[0].St, obj2.Fields[closureField(obj2)], []AV{Sym{Name: "recv2"}})
+					if len(o4) != 1 || o4[0].Panicked {
+						again = "the resumption of the second run is not a single path"
+					} else {
+						e4 := observable(o4[0].St.Events[len(o3[0].St.Events):])
+						if len(e4) == 0 || e4[0].Kind != "call" || !isSymNamed(e4[0].Callee, "f") {
+							again = "the resumption of the second run does not call the thunk (the statements after the yield run only the first time): " + strings.Join(traceOf(e4), " ; ")
+						}
+					}
+				}
+			}
+			c.check(again == "", "SEQ.TAKE", name+" resumption, value run a second time", pos, "the thunk is called again by the resumption of every run", again)
+		}
 		s.account(in)
 	}
 }
